@@ -119,7 +119,7 @@ CHECKS["C02"] = {
             "been called exactly once iff the statement's rule counts the step as a change, with old the object "
             "stored before and new the object stored after; nothing for rejected assignments and default reads; "
             "Events always with old Undefined; a raising handler changes nothing for the others.",
-    "note": "dispatch='same' only; depth bound 3/4 with dedup on (stored object, default materialised) which is the "
+    "note": "dispatch='same' only; depth bound 4/6 with dedup on (stored object, default materialised) which is the "
             "whole state because registrations are fixed per configuration; for == raising only agreement between "
             "mechanisms is required",
 }
